@@ -170,7 +170,7 @@ Print Assumptions C18_restart_one_child.
    again (spawns is frozen), none is alive, and every ProcessWatcher thread has finished or has its
    stopped flag set ([watcher_live] false).  What is NOT claimed (and false, known finding
    C18-superseded-watcher-not-joined): that every watcher has finished - a superseded watcher that
-   was told to stop may still have its last step (WPoll/WNoticed -> WDone) to do; it can start nothing. *)
+   was told to stop may still have its last steps (poll, then the flag test -> WDone) to do; it can start nothing. *)
 Theorem C18_restart_after_stop : forall restart_on_exit kill_after tr s,
   run (restart_lts true restart_on_exit kill_after) (init_state restart_on_exit) tr = Some s ->
   mpcs s = MReturned ->
@@ -198,12 +198,30 @@ Print Assumptions C18_restart_count.
    stop(): MReturned, three children started, two admitted calls, none alive, all watchers done. *)
 Example C18_restart_nonvacuous :
   let T := repeat TStep in let W := fun i => repeat (WStep i) in let Mn := repeat MStep in
-  let tr := [Trigger] ++ T 5 ++ [Exit 0%nat] ++ T 8 ++ [WStep 0] ++ [Exit 1%nat] ++ W 1%nat 14 ++
-            [StopCall] ++ Mn 5 ++ [Exit 2%nat] ++ Mn 4 ++ [WStep 2] ++ Mn 1 in
+  let tr := [Trigger] ++ T 5 ++ [Exit 0%nat] ++ T 8 ++ W 0%nat 2 ++ [Exit 1%nat] ++ W 1%nat 14 ++
+            [StopCall] ++ Mn 5 ++ [Exit 2%nat] ++ Mn 4 ++ W 2%nat 2 ++ Mn 1 in
   exists s, run (restart_lts true true 4) (init_state true) tr = Some s /\
     mpcs s = MReturned /\ spawns s = 3%nat /\ admitted s = 2%nat /\ children s = [false; false; false] /\
     max_alive s = 1%nat /\ forallb (fun w => match w_pc w with WDone => true | _ => false end) (watchers s) = true.
 Proof. eexists. vm_compute. repeat split. Qed.
+
+(* "Once per triggering event" needs the watcher's SECOND look at its stop flag (WNoticed).  A watcher
+   that tests the flag only before poll() (rs_step_norecheck: the flag test and poll() are separate steps,
+   there is no lock around them) restarts twice for one trigger, with no child exiting by itself: both
+   Exit labels of the witness follow a stop signal.  Refuted by a witness run, repaired lock included. *)
+Theorem C18_restart_watcher_without_recheck_refuted : exists tr s,
+  run (restart_lts_norecheck true true 4) (init_state true) tr = Some s /\
+  count_trigger tr = 1%nat /\ spawns s = 3%nat /\ admitted s = 2%nat /\ children s = [false; false; true].
+Proof. exact norecheck_double_restart. Qed.
+Print Assumptions C18_restart_watcher_without_recheck_refuted.
+
+(* the same schedule in the model of the real watcher: one restart, the stopped watcher just finishes *)
+Example C18_restart_watcher_recheck_witness : exists s,
+  run (restart_lts true true 4) (init_state true)
+      ([WStep 0%nat; WStep 0] ++ [Trigger] ++ repeat TStep 5 ++ [Exit 0%nat] ++ repeat TStep 8 ++ repeat (WStep 0%nat) 2)
+    = Some s /\ spawns s = 2%nat /\ admitted s = 1%nat /\ children s = [false; true] /\
+  watcher_done s 0 = true.
+Proof. exact recheck_single_restart. Qed.
 
 (* Pinned protocol (no lock around _restart_process): a self-exit restart racing an event restart
    leaves two children alive, self.process pointing at the younger one (the other is orphaned) ... *)
